@@ -163,19 +163,40 @@ func isUnit(s string) bool {
 }
 
 type parser struct {
-	unspec string
+	unspec  string
+	lenient bool
+}
+
+// zones in which klog's (lenient) reading is well defined and used by ParseLenient
+var lenientZones = map[string]bool{
+	"tab after the date":                    true,
+	"trailing blanks in the headline":       true,
+	"trailing blanks after the entry value": true,
+	"tab between entry value and summary":   true,
+	"carriage return inside a line":         true,
+	"invalid UTF-8":                         true,
 }
 
 func (p *parser) markUnspec(zone string) {
+	if p.lenient && lenientZones[zone] {
+		return
+	}
 	if p.unspec == "" {
 		p.unspec = zone
 	}
 }
 
 // Parse is the reference parser.
-func Parse(text string) Result {
+func Parse(text string) Result { return parse(text, false) }
+
+// ParseLenient reads the don't-care zones in which klog is knowingly lenient (tab separators,
+// trailing blanks, CR or invalid UTF-8 inside summaries) the way klog documents them, instead of
+// returning Unspec. It is used where files WRITTEN BY klog are read back (C03/C04/C05/C11/C17).
+func ParseLenient(text string) Result { return parse(text, true) }
+
+func parse(text string, lenient bool) Result {
 	lines := SplitLines(text)
-	p := &parser{}
+	p := &parser{lenient: lenient}
 	res := Result{NLines: len(lines)}
 	if !utf8.ValidString(text) {
 		p.markUnspec("invalid UTF-8")
@@ -436,10 +457,8 @@ func (p *parser) entry(rest string, rec *Record) (Entry, bool, string) {
 	case after == "":
 		e.Summary = []string{""}
 	case after[0] == ' ':
+		// the summary is whatever follows the one separating space (it may be empty or blank)
 		e.Summary = []string{after[1:]}
-		if IsBlankLine(after[1:]) {
-			p.markUnspec("trailing blanks after the entry value")
-		}
 	default: // tab
 		p.markUnspec("tab between entry value and summary")
 		e.Summary = []string{after[1:]}
